@@ -122,7 +122,8 @@ impl Reduce {
     ///     - Add noise on the aggregations
     pub fn differentially_private(self, parameters: &DpParameters) -> Result<DpRelation> {
         let mut dp_event = DpEvent::no_op();
-        let max_size = self.size().max().unwrap().clone();
+        // size of the dataset the aggregation runs on (the reduce itself may be a single row)
+        let max_size = self.input().size().max().unwrap().clone();
         let pup_input = PupRelation::try_from(self.input().clone())?;
         let privacy_unit_unique =
             pup_input.schema()[pup_input.privacy_unit()].has_unique_or_primary_key_constraint();
